@@ -198,8 +198,9 @@ def server_half(c):
     if len(cases) < 40:
         raise Machinery("server model emitted only %d (kind, handle class) cases" % len(cases))
     small = dict(base, MaxReqs=2)
-    c.mc_holds("SftpServerProto", cfg_text(spec="FairSpec", constants=small, properties=["AllServed"]),
-               name="server loop serves everything")
+    if not c.quick:
+        c.mc_holds("SftpServerProto", cfg_text(spec="FairSpec", constants=small, properties=["AllServed"]),
+                   name="server loop serves everything")
     c.mc("SftpServerProto", cfg_text(constants=dict(small, FixFsetstat=False), invariants=inv), expect="TypeAllowed",
          name="faithful FSETSTAT reply on an unknown handle")
     c.mc("SftpServerProto", cfg_text(constants=dict(small, FixCheckFile=False), invariants=inv),
